@@ -196,7 +196,8 @@ def run_case(spec, ctx):
                         compared += 1
                         if abs(gr.out[i] - eu.out[i]) > 1e-6 * max(abs(gr.out[i]), abs(eu.out[i]), 1e-300):
                             visible = True
-                        if not (abs(hy.out[i] - want) <= tol):
+                        same_nonfinite = (hy.out[i] == want) or (hy.out[i] != hy.out[i] and want != want)
+                        if not same_nonfinite and not (abs(hy.out[i] - want) <= tol):
                             if len(out["violations"]) < 6:
                                 out["violations"].append({"kind": "wrong_update", "detail": {
                                     "state": s, "stiff_given": given, "is_stiff": s in effective, "hybrid": hy.out[i], "own_grl": gr.out[i], "own_euler": eu.out[i], "tol": tol, "dt": dt,
